@@ -13,7 +13,7 @@ import (
 func init() {
 	register(&propDef{
 		ID:       "C09",
-		Explain:  "Decided (structural necessary conditions; model equivalence with a prefix-free map is NOT decided): sorted walks and String() never act in map iteration order (keys collected, sorted, then visited; no visitor call or recursion inside a range over a map); internalDelete's selection: a leaf reached with an exhausted path or one trailing glob is always offered to the condition (no early exit in front of the terminal/glob test) and is removed, reported and handed to the callback exactly when the condition accepts it; pruning: a child is deleted from its parent's map only after its recursive call reported it removable, a branch reached through a glob reports itself removable exactly when it has become empty (evaluated at 0/1 remaining children, with and without remaining glob elements), WalkDeleted/DeleteConditional clear the root only on that flag; an empty node (nil) is never offered to the condition; visitors are invoked at most once per node activation; Walk/WalkSorted hand every child its own copy of the path; Delete passes a constant-true condition. Also decided: with retDeletedPaths set the paths reported by a child's visit reach the result whether or not the child became removable, and the explicit-child arm returns the child's list; Walk/WalkSorted visit a leaf stored at the root exactly once with its own value and do not visit an empty root. Also decided: the per-node decision table of the query descent (queryInternal with enumerateChildren inlined: 18 rows over node kind x remaining path, incl. that every descent extends the reported prefix by the child's own key) - the same table internalDelete is held to, which now includes that a leaf reached with more path left (plain element, or glob followed by further elements) is never removed; add atomicity (terminalAdd / intermediateAdd / slowAdd: an error path made in the function writes nothing and does not descend; a branch node is refused by terminalAdd, a path through a leaf by the other two; terminalAdd stores exactly its value parameter). Round-3 additions: what may hand out a node's content ((*Tree).Value returns nil for a branch; only it and the leaf-handle accessor return it; package ctree never calls its own handle methods); who may store into a node's content and what; Add only dispatches (makes no error of its own). Round-4 additions to the query table: a branch is replayed with exactly two children and both must be descended into; a child stored under the literal name * does not capture a glob. Round-5 additions: the exact-path lookup table (Get / GetLeaf / GetLeafValue) in recursive or loop form; the append-ownership audit over package ctree (paths handed to callers and callbacks do not share a backing array).",
+		Explain:  "Decided (structural necessary conditions; model equivalence with a prefix-free map is NOT decided): sorted walks and String() never act in map iteration order (keys collected, sorted, then visited; no visitor call or recursion inside a range over a map); internalDelete's selection: a leaf reached with an exhausted path or one trailing glob is always offered to the condition (no early exit in front of the terminal/glob test) and is removed, reported and handed to the callback exactly when the condition accepts it; pruning: a child is deleted from its parent's map only after its recursive call reported it removable, a branch reached through a glob reports itself removable exactly when it has become empty (evaluated at 0/1 remaining children, with and without remaining glob elements), WalkDeleted/DeleteConditional clear the root only on that flag; an empty node (nil) is never offered to the condition; visitors are invoked at most once per node activation; Walk/WalkSorted hand every child its own copy of the path; Delete passes a constant-true condition. Also decided: with retDeletedPaths set the paths reported by a child's visit reach the result whether or not the child became removable, and the explicit-child arm returns the child's list; Walk/WalkSorted visit a leaf stored at the root exactly once with its own value and do not visit an empty root. Also decided: the per-node decision table of the query descent (queryInternal with enumerateChildren inlined: 18 rows over node kind x remaining path, incl. that every descent extends the reported prefix by the child's own key) - the same table internalDelete is held to, which now includes that a leaf reached with more path left (plain element, or glob followed by further elements) is never removed; add atomicity (terminalAdd / intermediateAdd / slowAdd: an error path made in the function writes nothing and does not descend; a branch node is refused by terminalAdd, a path through a leaf by the other two; terminalAdd stores exactly its value parameter). Round-3 additions: what may hand out a node's content ((*Tree).Value returns nil for a branch; only it and the leaf-handle accessor return it; package ctree never calls its own handle methods); who may store into a node's content and what; Add only dispatches (makes no error of its own). Round-4 additions to the query table: a branch is replayed with exactly two children and both must be descended into; a child stored under the literal name * does not capture a glob. Round-5 additions: the exact-path lookup table (Get / GetLeaf / GetLeafValue) in recursive or loop form; the append-ownership audit over package ctree (paths handed to callers and callbacks do not share a backing array). Round-7 addition: a walk enumerates a node's children from the node's own child map, ranged over in the same activation before the first child is visited (no answer from a list kept by an earlier walk).",
 		NotCover: "model equivalence over operation sequences (the per-node tables of add, query and delete are decided; their closure over sequences is not); slowAdd's newBranch chain building a complete path",
 		Run:      runC09,
 	})
@@ -99,6 +99,93 @@ func runC09(c *Ctx) {
 	if walkOK {
 		_, nRoots := mapOrderAudit(c, "C09.sorted", append(append([]*ssa.Function{}, sortedFns...), str), true)
 		c.Floor("C09.sorted/functions-ranging-over-children", nRoots, 2)
+	}
+
+	// ---- live children: a walk enumerates a node's children from the node's own child map, read in this activation
+	c.Rule("C09.live-children", "walkInternal and the sorted walk (unexported helpers inlined): on every path on which a child is visited, the node's own child map (a value of type branch) has been ranged over in the same activation before the first visit - an enumeration that can be answered from anything else (a list kept from an earlier walk) reports leaves that were deleted and misses leaves that were added since")
+	if walkOK {
+		roots := []*ssa.Function{}
+		if wi != nil {
+			roots = append(roots, wi)
+		}
+		if wis != nil {
+			roots = append(roots, wis)
+		} else if ws != nil {
+			roots = append(roots, ws)
+		}
+		nVisit := 0
+		for _, root := range roots {
+			inUnit := map[*ssa.Function]bool{}
+			for _, f := range sortedFns {
+				inUnit[f] = true
+			}
+			inUnit[root] = true
+			isVisit := func(ev *Ev) bool {
+				if !strings.HasPrefix(ev.Label, "call:") {
+					return false
+				}
+				ci, ok := ev.In.(ssa.CallInstruction)
+				if !ok {
+					return false
+				}
+				g := staticCallee(ci.Common())
+				if g == nil || g.Signature.Recv() == nil || !isNamed(g.Signature.Recv().Type(), "ctree", "Tree") {
+					return false
+				}
+				// a visit of a child: a recursive call of a function of this walk
+				for x := ev.F; x != nil; x = x.Parent {
+					if x.Fn == g {
+						return true
+					}
+				}
+				return false
+			}
+			e := &PPA{MaxVisits: 2, MaxPaths: 6000,
+				Inline: func(fr *Frame, call ssa.CallInstruction, callee *ssa.Function) bool {
+					if pkgPathOf(callee) != pkgPathOf(root) || len(callee.Blocks) == 0 {
+						return false
+					}
+					for x := fr; x != nil; x = x.Parent {
+						if x.Fn == callee {
+							return false
+						}
+					}
+					return true
+				},
+				Probe: func(e *PPA, st *State, fr *Frame, in ssa.Instruction) {
+					if rg, ok := in.(*ssa.Range); ok && isNamed(rg.X.Type(), "ctree", "branch") {
+						e.emit(st, Ev{Label: "fact", In: in, F: fr, Note: "range-children"})
+					}
+				},
+				Watch: func(ev *Ev) bool { return ev.Label == "fact" || isVisit(ev) }}
+			e.Run(root)
+			c.Paths += len(e.Paths)
+			c.Analysed(fnName(root))
+			if e.Overflow {
+				c.Unknown("C09.live-children", fnName(root), "paths", "", "path overflow")
+				continue
+			}
+			bad := map[token.Pos]bool{}
+			for i := range e.Paths {
+				p := &e.Paths[i]
+				first := p.Index(0, isVisit)
+				if first < 0 {
+					continue
+				}
+				nVisit++
+				rg := p.Index(0, func(ev *Ev) bool { return ev.Label == "fact" && ev.Note == "range-children" })
+				if rg >= 0 && rg < first {
+					continue
+				}
+				pos := posOf(p.Trace[first].In)
+				if !bad[pos] {
+					bad[pos] = true
+					c.Check(false, "C09.live-children", fnName(root), "children enumerated from the live child map", P.Pos(pos), "a path visits a child without having ranged over the node's child map in this activation")
+				}
+			}
+			c.Check(true, "C09.live-children", fnName(root), "children enumerated from the live child map (all visiting paths)", P.Pos(root.Pos()), "")
+		}
+		c.Floor("C09.live-children/visiting-paths", nVisit, 2)
 	}
 
 	// ---- conditional
